@@ -65,6 +65,11 @@ func DoCallKeep(k *Key, form string, shared map[string]string, h Hooks) (result 
 	if watched != nil {
 		before = MapSnapshot(watched)
 	}
+	renderExtra := applyExtra(opts, k.Extra)
+	extraBefore := ""
+	if renderExtra != nil {
+		extraBefore = renderExtra()
+	}
 	func() {
 		defer func() {
 			if p := recover(); p != nil {
@@ -122,6 +127,11 @@ func DoCallKeep(k *Key, form string, shared map[string]string, h Hooks) (result 
 	if watched != nil {
 		if after := MapSnapshot(watched); after != before {
 			mapViolation = fmt.Sprintf("parameter map before %s after %s", before, after)
+		}
+	}
+	if renderExtra != nil && mapViolation == "" {
+		if after := renderExtra(); after != extraBefore {
+			mapViolation = fmt.Sprintf("option fields before %s after %s", extraBefore, after)
 		}
 	}
 	return result, mapViolation, again
